@@ -36,6 +36,8 @@ type Prog struct {
 	retMemo     map[*Func][]*Term
 	anchors     map[string]types.Object
 	kt          *KeyTable
+	reach       map[*Func]bool
+	calleeMemo  map[*Func][]*Func
 
 	Stats struct {
 		Files, FuncsAnalysed, CallSites, Paths int
@@ -492,4 +494,40 @@ func (f *Func) CFG() *cfg.CFG {
 		})
 	}
 	return f.cfg
+}
+
+// callees: module functions referenced from g's body (calls, method values,
+// function literals) — a conservative static call graph.
+func (p *Prog) callees(g *Func) []*Func {
+	if p.calleeMemo == nil {
+		p.calleeMemo = map[*Func][]*Func{}
+	}
+	if cs, ok := p.calleeMemo[g]; ok {
+		return cs
+	}
+	seen := map[*Func]bool{}
+	var out []*Func
+	add := func(h *Func) {
+		if h != nil && !seen[h] {
+			seen[h] = true
+			out = append(out, h)
+		}
+	}
+	if g.Body != nil {
+		info := g.Pkg.TypesInfo
+		ast.Inspect(g.Body, func(n ast.Node) bool {
+			switch x := n.(type) {
+			case *ast.FuncLit:
+				add(p.FuncByLit[x])
+				return false
+			case *ast.Ident:
+				if fo, ok := info.Uses[x].(*types.Func); ok {
+					add(p.FuncByObj[fo])
+				}
+			}
+			return true
+		})
+	}
+	p.calleeMemo[g] = out
+	return out
 }
